@@ -242,11 +242,14 @@ def killCopy (j : Nat) (h : Handle) (to : String) (recs : List Rec) (st : St) : 
   else killCall (j - 2) h (.importRecs to recs true) (runCall none h (.createProfile to) st).1
 
 /-- the reopened database after a kill: `n` calls were acknowledged, the process died `j` steps into the next one -/
-def crash (h : Handle) (st : St) (cs : List Call) (n j : Nat) : St :=
-  let (stn, hn, _) := runSeq h st ((cs.take n).map fun c => (c, none))
-  match cs.drop n with
-  | [] => stn
-  | c :: _ => killCall j hn c stn
+def crash (h : Handle) (st : St) : List Call → Nat → Nat → St
+  | [], _, _ => st
+  | c :: _, 0, j => killCall j h c st
+  | c :: cs, n + 1, j => crash (runCall none h c st).2.1 (runCall none h c st).1 cs n j
+
+/-- the state after the first `n` calls of a fault-free sequence -/
+def afterN (h : Handle) (st : St) (cs : List Call) (n : Nat) : St :=
+  (runSeq h st ((cs.take n).map fun c => (c, none))).1
 
 /-! ## provisioning over an existing file with `recreate` -/
 
